@@ -432,6 +432,20 @@ def stream_attr(ctx, res):
         mm = r_result(m, lambda v: [[Fraction(x[0][0], x[0][1]), x[1]] for x in v])
         if not same_sizes(mm, o):
             res["disagreements"].append({"stream": "padding", "input": s, "impl": repr(o), "model": repr(mm)})
+    # audit w7: the model (1806) against Padding.from_xml_attribute on ALL the other generated strings too - 0 or > 4 tokens,
+    # malformed tokens, other separators - error class included, at disagreement level (the ValueError / syntax-error arms
+    # of C18_padding_attribute were only counted before)
+    rest = [s for s, j in zip(cases, judged) if j != 1]
+    n_err = {}
+    for s, m in zip(rest, oracle_batch([(1806, s) for s in rest])):
+        res["evaluations"] += 1
+        o = obs_padding(s)
+        mm = r_result(m, lambda v: [[Fraction(x[0][0], x[0][1]), x[1]] for x in v])
+        key = "ok" if isinstance(o, Ok) else "error class %d" % o.code
+        n_err[key] = n_err.get(key, 0) + 1
+        if not same_sizes(mm, o):
+            res["disagreements"].append({"stream": "padding-error-arm", "input": s, "impl": repr(o), "model": repr(mm)})
+    res["distribution"]["padding_attributes_outside_the_statement_compared_with_the_model(outcome classes)"] = n_err
     res["distribution"]["padding_judged_arity_histogram"] = ar
     res["distribution"]["padding_attributes_outside_the_statement(other separators, 0 or >4 sizes, malformed sizes: counted, not judged)"] = \
         len(cases) - len(cases_j)
@@ -450,6 +464,20 @@ def stream_attr(ctx, res):
         mm = r_result(m, lambda v: [[Fraction(x[0][0], x[0][1]), x[1]] for x in v])
         if not same_sizes(mm, o):
             res["disagreements"].append({"stream": "two", "input": [c.__name__, s], "impl": repr(o), "model": repr(mm)})
+    # audit w7: and on the strings that are NOT two well-formed sizes (0 / 1 / 3 tokens, malformed tokens): the ValueError /
+    # syntax-error arms of C18_two_sizes_attribute against the real classes, disagreement level; fixed corpus of the arms first
+    rest2 = [(Point, "1px"), (Stretch, "1px"), (Point, "1px 2px 3px"), (Stretch, ""), (Point, "px 1px"), (Stretch, "1px  2px"),
+             (Point, "1px 2"), (Stretch, "1px\t2px")] + [c for c, j in zip(cases2, judged) if j != 1]
+    n_err2 = {}
+    for (c, s), m in zip(rest2, oracle_batch([(1810, s) for _, s in rest2])):
+        res["evaluations"] += 1
+        o = obs_two(c, s)
+        mm = r_result(m, lambda v: [[Fraction(x[0][0], x[0][1]), x[1]] for x in v])
+        key = "ok" if isinstance(o, Ok) else "error class %d" % o.code
+        n_err2[key] = n_err2.get(key, 0) + 1
+        if not same_sizes(mm, o):
+            res["disagreements"].append({"stream": "two-error-arm", "input": [c.__name__, s], "impl": repr(o), "model": repr(mm)})
+    res["distribution"]["point_stretch_attributes_not_two_wellformed_sizes_compared_with_the_model(outcome classes)"] = n_err2
     res["distribution"]["point_stretch_attributes_compared_with_the_model"] = len(cases2_j)
     res["distribution"]["point_stretch_attributes_not_two_wellformed_sizes(counted)"] = len(cases2) - len(cases2_j)
 
